@@ -24,7 +24,8 @@ import tempfile
 
 V = os.path.dirname(os.path.dirname(os.path.abspath(__file__)))
 REPO = os.environ.get("BNPSA_REPO", "/repo")
-TRANSFORMS = ["identity", "rename", "tempret", "ifflip", "nodoc", "compvars", "elseify", "elimtemps", "guardswap", "addassert", "kwreorder"]
+TRANSFORMS = ["identity", "rename", "tempret", "ifflip", "nodoc", "compvars", "elseify", "elimtemps", "guardswap", "addassert", "kwreorder",
+              "cmpflip", "msgs", "typehints", "tuplelist", "lenzero", "literals"]
 SCOPES = (ast.FunctionDef, ast.AsyncFunctionDef, ast.Lambda, ast.ListComp, ast.SetComp, ast.DictComp, ast.GeneratorExp, ast.ClassDef)
 
 
@@ -367,6 +368,108 @@ class KwReorder(ast.NodeTransformer):
         return node
 
 
+class CmpFlip(ast.NodeTransformer):
+    """`a < b` -> `b > a` (and <=, >=) for every single ordering comparison whose operands are side-effect free"""
+    MIRROR = {ast.Lt: ast.Gt, ast.Gt: ast.Lt, ast.LtE: ast.GtE, ast.GtE: ast.LtE}
+
+    def visit_Compare(self, node):
+        self.generic_visit(node)
+        if len(node.ops) == 1 and type(node.ops[0]) in self.MIRROR and not any(isinstance(x, (ast.Call, ast.Await, ast.Yield, ast.NamedExpr)) for o in (node.left, node.comparators[0]) for x in ast.walk(o)) \
+                and not any(isinstance(o, ast.Constant) and isinstance(o.value, (str, bytes)) for o in (node.left, node.comparators[0])):
+            return ast.Compare(left=node.comparators[0], ops=[self.MIRROR[type(node.ops[0])]()], comparators=[node.left])
+        return node
+
+
+class Msgs(ast.NodeTransformer):
+    """the text of exception messages is reworded (constant strings directly given to the exception raised)"""
+
+    def visit_Raise(self, node):
+        if isinstance(node.exc, ast.Call):
+            for i, a in enumerate(node.exc.args):
+                if isinstance(a, ast.Constant) and isinstance(a.value, str) and a.value:
+                    node.exc.args[i] = ast.Constant(value="bionumpy: " + a.value)
+        return node
+
+
+class TypeHints(ast.NodeTransformer):
+    """unannotated parameters get the annotation `object`, unannotated results `-> object` (annotations are not evaluated for behaviour)"""
+
+    def visit_FunctionDef(self, node):
+        self.generic_visit(node)
+        if any(isinstance(d, ast.Name) and d.id in ("bnpdataclass", "dataclass") for d in node.decorator_list):
+            return node
+        for a in node.args.posonlyargs + node.args.args + node.args.kwonlyargs:
+            if a.annotation is None and a.arg not in ("self", "cls"):
+                a.annotation = ast.Name(id="object", ctx=ast.Load())
+        return node
+    visit_AsyncFunctionDef = visit_FunctionDef
+
+
+class TupleList(ast.NodeTransformer):
+    """the sequence argument of np.concatenate / hstack / vstack / stack / lexsort / column_stack written as the other literal kind (list <-> tuple)"""
+    FUNCS = {"np.concatenate", "np.hstack", "np.vstack", "np.stack", "np.column_stack"}
+
+    def visit_Call(self, node):
+        self.generic_visit(node)
+        if ast.unparse(node.func) in self.FUNCS and node.args:
+            a = node.args[0]
+            if isinstance(a, ast.List) and len(a.elts) >= 2:
+                node.args[0] = ast.Tuple(elts=a.elts, ctx=ast.Load())
+            elif isinstance(a, ast.Tuple):
+                node.args[0] = ast.List(elts=a.elts, ctx=ast.Load())
+        return node
+
+
+class LenZero(ast.NodeTransformer):
+    """emptiness tests in another spelling: len(x) == 0 -> not len(x); len(x) > 0 -> len(x) != 0; len(x) != 0 -> len(x) > 0; x is not None -> not x is None"""
+
+    def visit_Compare(self, node):
+        self.generic_visit(node)
+        if len(node.ops) != 1:
+            return node
+        l, r, op = node.left, node.comparators[0], node.ops[0]
+        is_len = isinstance(l, ast.Call) and isinstance(l.func, ast.Name) and l.func.id == "len" and isinstance(r, ast.Constant) and r.value == 0 and type(r.value) is int
+        if is_len and isinstance(op, ast.Eq):
+            return ast.UnaryOp(op=ast.Not(), operand=l)
+        if is_len and isinstance(op, ast.Gt):
+            return ast.Compare(left=l, ops=[ast.NotEq()], comparators=[r])
+        if is_len and isinstance(op, ast.NotEq):
+            return ast.Compare(left=l, ops=[ast.Gt()], comparators=[r])
+        if isinstance(op, ast.IsNot) and isinstance(r, ast.Constant) and r.value is None:
+            return ast.UnaryOp(op=ast.Not(), operand=ast.Compare(left=l, ops=[ast.Is()], comparators=[r]))
+        return node
+
+
+class Literals(ast.NodeTransformer):
+    """`return None` <-> `return`; `dict()` / `list()` / `tuple()` <-> `{}` / `[]` / `()`"""
+
+    def visit_Return(self, node):
+        self.generic_visit(node)
+        if node.value is None:
+            node.value = ast.Constant(value=None)
+        elif isinstance(node.value, ast.Constant) and node.value.value is None:
+            node.value = None
+        return node
+
+    def visit_Call(self, node):
+        self.generic_visit(node)
+        if isinstance(node.func, ast.Name) and node.func.id in ("dict", "list", "tuple") and not node.args and not node.keywords:
+            return {"dict": ast.Dict(keys=[], values=[]), "list": ast.List(elts=[], ctx=ast.Load()), "tuple": ast.Tuple(elts=[], ctx=ast.Load())}[node.func.id]
+        return node
+
+    def visit_Dict(self, node):
+        self.generic_visit(node)
+        if not node.keys:
+            return ast.Call(func=ast.Name(id="dict", ctx=ast.Load()), args=[], keywords=[])
+        return node
+
+    def visit_List(self, node):
+        self.generic_visit(node)
+        if not node.elts and isinstance(node.ctx, ast.Load):
+            return ast.Call(func=ast.Name(id="list", ctx=ast.Load()), args=[], keywords=[])
+        return node
+
+
 class NoDoc(ast.NodeTransformer):
     def visit_FunctionDef(self, node):
         self.generic_visit(node)
@@ -395,6 +498,18 @@ def transform_source(src: str, name: str) -> str:
         tree = AddAssert().visit(tree)
     elif name == "kwreorder":
         tree = KwReorder().visit(tree)
+    elif name == "cmpflip":
+        tree = CmpFlip().visit(tree)
+    elif name == "msgs":
+        tree = Msgs().visit(tree)
+    elif name == "typehints":
+        tree = TypeHints().visit(tree)
+    elif name == "tuplelist":
+        tree = TupleList().visit(tree)
+    elif name == "lenzero":
+        tree = LenZero().visit(tree)
+    elif name == "literals":
+        tree = Literals().visit(tree)
     elif name == "guardswap":
         sys.path.insert(0, V)
         from bnpsa import normalize
